@@ -40,7 +40,9 @@ def main(tier, seed):
                                           {"clause": "replay of a TLC-enumerated program: value differs from the specification's",
                                            "program": it["text"], "goal": g, "n": n, "polar_value": val["q"],
                                            "spec_value": str(it["spec_values"][g][n])})
-        return dict(ps_cov, progspace_values_compared=compared, progspace_mismatches=mismatches)
+        from .. import abstraction
+        abs_cov = abstraction.part(run, tier, seed, "mom")
+        return dict(ps_cov, progspace_values_compared=compared, progspace_mismatches=mismatches, **abs_cov)
     return analysis_check("C01", tier, seed, items=items, N=6 if quick else 9,
                           timeout=100 if quick else 300, post=post, N_ext=40, **CONFIG)
 
